@@ -546,8 +546,8 @@ def judge_xml(pid):
                 v.append(('SPECFAIL', 'c08:leak:%s' % l.split(':')[0], l))
             for l in ch.get('protected_leaks', []):
                 v.append(('SPECFAIL', 'c08:protected:%s' % l.split(':')[0], l))
-        if pid == 'C09' and sub == 'lossless' and save == 'ok' and str(ch.get('unwrap')) in ('inner-key-size', 'size-iv', 'size-seed'):
-            v.append(('SPECFAIL', 'c09:size-%s' % {'inner-key-size': 'inner_key', 'size-iv': 'iv', 'size-seed': 'master_seed'}[ch.get('unwrap')], 'the strict KDBX4 reader finds a random value of the wrong size in the saved file (clause %s)' % ch.get('unwrap')))
+        if pid == 'C09' and sub == 'lossless' and save == 'ok' and str(ch.get('unwrap')) in ('inner-key-size', 'size-iv', 'size-seed', 'size-kdf-seed'):
+            v.append(('SPECFAIL', 'c09:size-%s' % {'inner-key-size': 'inner_key', 'size-iv': 'iv', 'size-seed': 'master_seed', 'size-kdf-seed': 'kdf_seed'}[ch.get('unwrap')], 'the strict KDBX4 reader finds a random value of the wrong size in the saved file (clause %s)' % ch.get('unwrap')))
         if pid == 'C09' and sub == 'lossless' and save == 'ok' and ch.get('unwrap') == 'ok':
             for name, f in ch.get('fresh', {}).items():
                 if f['len'] != f['want_len']:
